@@ -239,7 +239,11 @@ class iNET(object):
             return False
 
         for attr in iNET.REQ_ATTR:
-            if getattr(self, attr) != getattr(other, attr):
+            if attr == "_payload":
+                # The payload is only rebuilt from the packages by pack(), so compare what the packages encode to
+                if b"".join(p.pack() for p in self.packages) != b"".join(p.pack() for p in other.packages):
+                    return False
+            elif getattr(self, attr) != getattr(other, attr):
                 return False
 
         return True
